@@ -80,6 +80,9 @@ def run(chk):
     # HEAD: a route that allows HEAD wins over the GET fallback, whichever tier either of them lives in
     run_instance(chk, "iv-head", ["/a/{x}", "/a/1", "/{x}/{y}", "/a[/{x}]"], 4, 3, chars=("/", "a", "1"),
                  method_sets=(("GET",), ("HEAD",), ("GET", "HEAD")), req_methods=("GET", "HEAD"), only=SEL)
+    # StrictLastSlash: paths are taken literally, "/a/" is a path of its own (a variable that may be empty matches its tail)
+    run_instance(chk, "v-strict", ["/a/{x:all}", "/a[/{x}]", "/a/{x}/", "/a/{x}", "/{x}/{y:all}", "/a/", "/a", "/{x}/"], 4, 2, chars=("/", "a", "b"), only=SEL,
+                 extra_paths=["/a/", "/b/", "/a/b/", "/a/a/", "/b/a/", "/a/b/a/"], harness_env={"VERIF_MATCH_STRICT": "1"})
     chk.exhaustive = True
     negs(chk, None if thorough else ["D_IrregularOverwrite"])
     recorded(chk, 400 if thorough else 40)
